@@ -410,6 +410,7 @@ func (b *Bar) serve(bs *bState) {
 		select {
 		case op := <-b.operateState:
 			op(bs)
+			vhook("bar.op", b, 0, 0)
 		case <-b.ctx.Done():
 			vhook("bar.exit", b, 0, 0)
 			decoratorsOnShutdown(bs.decorGroups[0])
